@@ -209,11 +209,11 @@ fn generate(g: &mut Gen, thorough: bool) {
     }
     let mut bounds: Vec<usize> = vec![];
     for c in [128usize, 2048, 4096, 16384, 65536] {
-        let dmax = if thorough { 40 } else if c >= 16384 { 1 } else { 9 };
+        let dmax = if c >= 16384 { if thorough { 8 } else { 1 } } else if thorough { 40 } else { 9 };
         for d in 0..=dmax { bounds.push(c + d); if c >= d + 1 { bounds.push(c - d - 1); } } }
     if thorough { bounds.push(1 << 20); bounds.push((1 << 20) + 3); } else { bounds.push(200_000); }
     for (i, &n) in bounds.iter().enumerate() {
-        let hs: Vec<usize> = if thorough && n < 70000 { HS.to_vec() } else { vec![HS[i % 5]] };
+        let hs: Vec<usize> = if thorough && n < 5000 { HS.to_vec() } else { vec![HS[i % 5]] };
         for h in hs {
             // sizes counted so that the payload (H + data) straddles the buffer boundary as well
             let nn = if i % 2 == 0 { n.saturating_sub(h) } else { n };
@@ -256,7 +256,7 @@ fn generate(g: &mut Gen, thorough: bool) {
         let h = HS[i % 5];
         let r = g.record(h, n, i % 3 == 0, true);
         g.push(format!("cor {r} bitsx")); g.push(format!("cor {r} truncx"));
-        if n <= (if thorough { 700 } else { 130 }) { let s = g.rng.below(1000); g.push(format!("cor {r} burstx {s}")); }
+        if n <= 130 || (thorough && n <= 330 && n % 7 == 0) { let s = g.rng.below(1000); g.push(format!("cor {r} burstx {s}")); }
     }
     // --- malformed stream: arbitrary bytes / arbitrary length words / arbitrary offsets
     let nraw = if thorough { 6000 } else { 1200 };
